@@ -114,7 +114,14 @@ F8 == { Case("F8", <<Tok("NUM", "pat", "[0-9]+"), Tok("IDT", "pat", "[a-z]+"),
       \cup { Case("F8", <<Rule("start", Alt(Cat(Cat(NT("start"), A), NT("start")), NT("y"))), Rule("y", B),
                      Dir("left", <<HRule("start", Cat(Cat(NT("start"), A), NT("start")))>>), Dir("none", <<HRule("y", Un(o1, C))>>)>>) : o1 \in UnaryOps }
 
-All == F8 \cup F7 \cup F1 \cup F2 \cup F2b \cup F2c \cup F2d \cup F3 \cup F4 \cup F6
+\* user rules whose NAMES look like synthesised ones, standing alone under an operator (what they are is decided by
+\* their productions, never by their name)
+F3b == { Case("F3", <<Rule("start", Cat(Un(o2, NT(n \o Suffix(op))), B)), Rule(n \o Suffix(op), A)>>) :
+           op \in UnaryOps, o2 \in UnaryOps, n \in {"gen_a_", "gen1_", "generic_"} }
+       \cup { Case("F3", <<Rule("start", Cat(C, Un(o2, NT(n \o Suffix(op))))), Rule(n \o Suffix(op), Alt(Cat(A, B), A))>>) :
+           op \in UnaryOps, o2 \in UnaryOps, n \in {"gen_a_", "gen2_"} }
+
+All == F3b \cup F8 \cup F7 \cup F1 \cup F2 \cup F2b \cup F2c \cup F2d \cup F3 \cup F4 \cup F6
 ASSUME /\ ndJsonSerialize("gen_specs.ndjson", SetToSeq(All))
        /\ PrintT(<<"GENERATED", Cardinality(All), "F1", Cardinality(F1), "F2", Cardinality(F2) + Cardinality(F2b) + Cardinality(F2c) + Cardinality(F2d), "F3", Cardinality(F3), "F4", Cardinality(F4)>>)
 =============================================================================
